@@ -229,6 +229,58 @@ func TestVerifC09(t *testing.T) {
 					}
 				}
 				rendered = append(rendered, fmt.Sprintf("%s sl=%d cl=%d", q, sl, cl))
+
+				// The same request without chunks (SkipChunks, as the series/labels APIs of the querier
+				// send it): only the series limit applies, the answer has the same label sets.
+				if sl > 0 && rapid.IntRange(0, 1).Draw(rt, "alsoSkipChunks") == 0 {
+					k.dyn.chunks.Store(0)
+					r := req()
+					r.SkipChunks = true
+					lazy1 := ls.lazyCount()
+					ssrv, serr := runSeries(ls.st, r)
+					slazy := ls.lazyCount() > lazy1
+					sctxt := func() string {
+						return fmt.Sprintf("\nSkipChunks query %s seriesLimit=%d (brute force: lo_s=%d hi_s=%d) lazyUsed=%v knobs %s\nblocks %s",
+							q, sl, cnt.lo, cnt.hi, slazy, k, renderSpecs(specs))
+					}
+					rec.Class("skip-chunks-request")
+					if slazy {
+						rec.Class("skip-chunks-lazy-used")
+					}
+					if serr != nil {
+						if status.Code(serr) != codes.ResourceExhausted {
+							rt.Fatalf("C09 violated: failure does not carry ResourceExhausted: code=%v err=%v%s", status.Code(serr), serr, sctxt())
+						}
+						if cnt.hi <= sl {
+							rt.Fatalf("C09 violated: chunk-less request within the series limit failed: %v%s", serr, sctxt())
+						}
+					} else {
+						gs, gc := countAnswer(ssrv.frames)
+						if cnt.lo > sl {
+							rt.Fatalf("C09 violated: chunk-less request exceeding the series limit succeeded with %d series%s", gs, sctxt())
+						}
+						if gs > sl {
+							rt.Fatalf("C09 violated: %d series returned with series limit %d%s", gs, sl, sctxt())
+						}
+						if gc != 0 {
+							rt.Fatalf("C09 violated: SkipChunks answer carries %d chunks%s", gc, sctxt())
+						}
+						got := groupFrames(ssrv.frames)
+						for lk := range want {
+							if _, ok := got[lk]; !ok {
+								rt.Fatalf("C09 violated: chunk-less answer misses series %s of the unlimited answer%s", lk, sctxt())
+							}
+						}
+						for lk := range got {
+							if _, ok := want[lk]; !ok {
+								rt.Fatalf("C09 violated: chunk-less answer has series %s the unlimited answer does not have%s", lk, sctxt())
+							}
+						}
+						if slazy && cnt.lo == sl {
+							rec.Class("skip-chunks-lazy-at-limit")
+						}
+					}
+				}
 			}
 			if cnt.multiBlock {
 				classes["series-in-several-blocks"] = true
